@@ -110,8 +110,8 @@ func (iter *matrixIterator) Next() bool {
 }
 
 func (iter *matrixIterator) worker(ctx context.Context) {
-	defer func() { iter.catcher.Add(iter.chunks.Err()) }()
 	defer close(iter.pipe)
+	defer func() { iter.catcher.Add(iter.chunks.Err()) }()
 
 	var payload []byte
 	var doc *birch.Document
